@@ -1,1 +1,247 @@
-import BigtreeModel.Basic
+import BigtreeModel.Helper
+import BigtreeProofs.Lemmas.HelperPrune
+/-!
+# C14 — prune_tree and get_subtree return exactly the specified part of the tree
+
+Model: `Helper.prune`, `Helper.getSubtree` (Model B, written as the Python is written: locate each
+path with `find_path`, build the ancestor set, detach the non-kept children, cut the depth through
+the level groups with `del children`). Nodes are identified by their address in the input tree.
+`restrict keep [] t` is `t` with exactly the subtrees rooted at nodes failing `keep` removed —
+sibling order, ids, names and attributes untouched.
+-/
+namespace C14
+open Helper
+
+
+/-- `r(a[k=1](x, y(z)), b(z), c)` with ids in pre-order: the tree of the non-vacuity examples -/
+def ex : Tree :=
+  .node 0 ['r'] [] [
+    .node 1 ['a'] [(['k'], .int 1)] [.node 2 ['x'] [] [], .node 3 ['y'] [] [.node 4 ['z'] [] []]],
+    .node 5 ['b'] [] [.node 6 ['z'] [] []],
+    .node 7 ['c'] [] []]
+
+/-- a full path and a bare name locate the nodes at addresses `[0]` and `[1]`, which are non-nested -/
+theorem ex_locate : locate ['/'] ex ['/'] [['/','r','/','a'], ['b']] = .ok [[0], [1]] := rfl
+theorem ex_nonNested : NonNested [[0], [1]] := by unfold NonNested; decide
+
+/-- the kept-node predicate is closed under taking prefixes (ancestors) -/
+theorem pruneKeep_prefix_closed (ps : List Addr) (exact : Bool) (md : Nat) (b c : Addr)
+    (hcb : c <+: b) (hb : pruneKeep ps exact md b = true) : pruneKeep ps exact md c = true := by
+  simp only [pruneKeep, Bool.and_eq_true, Bool.or_eq_true, List.any_eq_true, Bool.not_eq_true',
+    List.isPrefixOf_iff_prefix, decide_eq_true_eq, beq_iff_eq] at hb ⊢
+  obtain ⟨h1, h2⟩ := hb
+  refine ⟨?_, ?_⟩
+  · rcases h1 with h1 | ⟨p, hp, h | ⟨he, h⟩⟩
+    · exact Or.inl h1
+    · exact Or.inr ⟨p, hp, Or.inl (hcb.trans h)⟩
+    · rcases List.prefix_or_prefix_of_prefix hcb h with h' | h'
+      · exact Or.inr ⟨p, hp, Or.inl h'⟩
+      · exact Or.inr ⟨p, hp, Or.inr ⟨he, h'⟩⟩
+  · rcases h2 with h2 | h2
+    · exact Or.inl h2
+    · have := hcb.length_le; exact Or.inr (by omega)
+
+/-- **prune_order_attrs.** For located, pairwise non-nested targets `ps`, `prune_tree` returns the
+    input tree restricted to the nodes on a route to a target or (unless `exact`) below one, and
+    within the depth limit: sibling order, ids, names and attributes are those of the input. -/
+theorem prune_order_attrs (treeSep : Str) (t : Tree) (paths : List Str) (exact : Bool) (sepArg : Str)
+    (md : Nat) (ps : List Addr)
+    (hloc : locate treeSep t sepArg paths = .ok ps) (hnn : NonNested ps)
+    (hne : paths ≠ [] ∨ md ≠ 0) :
+    prune treeSep t paths exact sepArg md = .ok (restrict (pruneKeep ps exact md) [] t) := by
+  have hlen := locate_length treeSep t sepArg paths ps hloc
+  unfold prune
+  have hc : (paths.isEmpty && md == 0) = false := by
+    rcases hne with h | h
+    · simp [List.isEmpty_iff, h]
+    · simp [h]
+  rw [hc]
+  simp only [Bool.false_eq_true, if_false]
+  by_cases hp : paths = []
+  · -- depth only
+    subst hp
+    have hps : ps = [] := by simpa using hlen
+    subst hps
+    have hmd : md ≠ 0 := by rcases hne with h | h; exact absurd rfl h; exact h
+    simp only [prunePaths, List.isEmpty_nil, if_true, Except.map]
+    have : (md == 0) = false := by simpa using hmd
+    rw [this]
+    simp only [Bool.false_eq_true, if_false]
+    rw [depthCut_eq_cutDepth md (by omega), cutDepth_eq_restrict md (by omega)]
+    congr 2
+    funext b
+    simp [pruneKeep, withDepth, hmd]
+  · have hpsne : ps ≠ [] := by
+      intro e; subst e
+      exact hp (List.length_eq_zero_iff.mp (by simpa using hlen.symm))
+    have hpe : paths.isEmpty = false := by simpa [List.isEmpty_iff] using hp
+    simp only [prunePaths, hpe, Bool.false_eq_true, if_false, hloc, Except.map]
+    have hdet := detach_targets ps exact hnn hpsne t
+    unfold ancSet at hdet
+    rw [hdet]
+    have hpse : ps.isEmpty = false := by simpa [List.isEmpty_iff] using hpsne
+    by_cases hmd : md = 0
+    · subst hmd
+      simp only [beq_self_eq_true, if_true]
+      congr 2
+      funext b
+      simp [pruneKeep, keepT, hpse]
+    · have hmdb : (md == 0) = false := by simpa using hmd
+      rw [hmdb]
+      simp only [Bool.false_eq_true, if_false]
+      rw [depthCut_eq_cutDepth md (by omega)]
+      have hcut := cutDepth_restrict (keepT ps exact) md t [] (by simp; omega)
+      simp only [List.length_nil, Nat.zero_add] at hcut
+      rw [hcut]
+      congr 2
+      funext b
+      simp [pruneKeep, withDepth, keepT, hpse, hmdb]
+
+/-- non-vacuity: two paths, `exact=True` — the hypotheses hold and the restriction is the tree
+    `r(a[k=1], b)`; with `exact=False` and `max_depth=3` it is `r(a(x, y), b(z))` (this is the case
+    the "ignores `exact` once two paths are given" mutant gets wrong) -/
+example : prune ['/'] ex [['/','r','/','a'], ['b']] true ['/'] 0
+      = .ok (restrict (pruneKeep [[0], [1]] true 0) [] ex)
+    ∧ restrict (pruneKeep [[0], [1]] true 0) [] ex
+      = .node 0 ['r'] [] [.node 1 ['a'] [(['k'], .int 1)] [], .node 5 ['b'] [] []]
+    ∧ restrict (pruneKeep [[0], [1]] false 3) [] ex
+      = .node 0 ['r'] [] [.node 1 ['a'] [(['k'], .int 1)] [.node 2 ['x'] [] [], .node 3 ['y'] [] []],
+          .node 5 ['b'] [] [.node 6 ['z'] [] []]] :=
+  ⟨prune_order_attrs _ _ _ _ _ _ _ ex_locate ex_nonNested (Or.inl (by simp)), rfl, rfl⟩
+
+/-- **prune_nodes.** The nodes of the result, listed in pre-order, are the nodes of the input at
+    the kept addresses (with their ids, names and attributes), and an address is kept iff it is an
+    address of the input tree, lies on a route to a target or (unless `exact`) below a target, and
+    its depth does not exceed `max_depth`. -/
+theorem prune_nodes (treeSep : Str) (t : Tree) (paths : List Str) (exact : Bool) (sepArg : Str)
+    (md : Nat) (ps : List Addr)
+    (hloc : locate treeSep t sepArg paths = .ok ps) (hnn : NonNested ps)
+    (hne : paths ≠ [] ∨ md ≠ 0) :
+    ∃ r, prune treeSep t paths exact sepArg md = .ok r ∧
+      preLabels r = (keptAddrs (pruneKeep ps exact md) [] t).filterMap (labelAt t) ∧
+      ∀ a, a ∈ keptAddrs (pruneKeep ps exact md) [] t ↔
+        a ∈ addrs [] t ∧ (ps = [] ∨ ∃ p ∈ ps, a <+: p ∨ (exact = false ∧ p <+: a))
+          ∧ (md = 0 ∨ a.length + 1 ≤ md) := by
+  refine ⟨_, prune_order_attrs treeSep t paths exact sepArg md ps hloc hnn hne,
+    preLabels_restrict _ t t [] rfl, ?_⟩
+  intro a
+  rw [mem_keptAddrs _ (pruneKeep_prefix_closed ps exact md)]
+  have hk : pruneKeep ps exact md a = true ↔
+      (ps = [] ∨ ∃ p ∈ ps, a <+: p ∨ (exact = false ∧ p <+: a)) ∧ (md = 0 ∨ a.length + 1 ≤ md) := by
+    simp [pruneKeep, List.isEmpty_iff, List.isPrefixOf_iff_prefix]
+  constructor
+  · rintro ⟨h1, h2 | h2⟩
+    · subst h2
+      refine ⟨h1, ?_, by simp; omega⟩
+      by_cases hps : ps = []
+      · exact Or.inl hps
+      · obtain ⟨p, hp⟩ := List.exists_mem_of_ne_nil ps hps
+        exact Or.inr ⟨p, hp, Or.inl List.nil_prefix⟩
+    · exact ⟨h1, hk.mp h2⟩
+  · rintro ⟨h1, h2⟩
+    exact ⟨h1, Or.inr (hk.mpr h2)⟩
+
+/-- non-vacuity: for `exact=False, max_depth=3` the kept addresses are those of `r, a, x, y, b, z`
+    (not `y`'s child at depth 4, not `c`) and the result lists exactly their labels -/
+example : keptAddrs (pruneKeep [[0], [1]] false 3) [] ex = [[], [0], [0, 0], [0, 1], [1], [1, 0]]
+    ∧ (keptAddrs (pruneKeep [[0], [1]] false 3) [] ex).filterMap (labelAt ex)
+      = [(0, ['r'], []), (1, ['a'], [(['k'], .int 1)]), (2, ['x'], []), (3, ['y'], []), (5, ['b'], []), (6, ['z'], [])]
+    ∧ addrs [] ex = [[], [0], [0, 0], [0, 1], [0, 1, 0], [1], [1, 0], [2]] := ⟨rfl, rfl, rfl⟩
+example : ∃ r, prune ['/'] ex [['/','r','/','a'], ['b']] false ['/'] 3 = .ok r ∧ preLabels r
+      = [(0, ['r'], []), (1, ['a'], [(['k'], .int 1)]), (2, ['x'], []), (3, ['y'], []), (5, ['b'], []), (6, ['z'], [])] := by
+  obtain ⟨r, h1, h2, _⟩ := prune_nodes ['/'] ex _ false ['/'] 3 _ ex_locate ex_nonNested (Or.inl (by simp))
+  exact ⟨r, h1, h2⟩
+
+/-- the addresses listed by `addrs` are exactly the positions at which the tree has a node -/
+theorem addrs_valid (t : Tree) (a : Addr) : a ∈ addrs [] t ↔ (subAt t a).isSome := mem_addrs_root t a
+
+/-- **subtree_eq.** `get_subtree` returns the addressed node with its descendants, cut at the
+    relative depth `max_depth`, as a new root. -/
+theorem subtree_eq (treeSep : Str) (anc : List Str) (t : Tree) (q : Str) (md : Nat) (v : Visit)
+    (hq : q ≠ []) (hf : findPath treeSep anc t q = .ok (some v)) :
+    getSubtree treeSep anc t q md
+        = .ok (if md = 0 then v.sub else restrict (fun b => decide (b.length + 1 ≤ md)) [] v.sub)
+      ∧ subAt t v.addr = some v.sub := by
+  constructor
+  · have hqe : q.isEmpty = false := by simpa [List.isEmpty_iff] using hq
+    simp only [getSubtree, subtreeFind, hqe, Bool.false_eq_true, if_false, hf, Except.bind]
+    by_cases hmd : md = 0
+    · simp [hmd]
+    · have : (md == 0) = false := by simpa using hmd
+      simp only [this, Bool.false_eq_true, if_false, hmd]
+      have := prune_order_attrs treeSep v.sub [] false ['/'] md [] (by simp [locate]) (by intro p hp; simp at hp)
+        (Or.inr hmd)
+      rw [this]
+      congr 2
+      funext b
+      simp [pruneKeep, hmd]
+  · obtain ⟨hv, _, _⟩ := findPath_some treeSep anc t q v hf
+    obtain ⟨rel, h1, h2⟩ := walk_subAt t [] anc v hv
+    simp only [List.nil_append] at h1
+    rw [h1]; exact h2
+
+/-- non-vacuity: `get_subtree(root, "a", max_depth=2)` finds the node at `[0]` and returns `a(x, y)` -/
+example : ∃ v, findPath ['/'] [] ex ['a'] = .ok (some v) ∧ v.addr = [0]
+    ∧ getSubtree ['/'] [] ex ['a'] 2
+      = .ok (.node 1 ['a'] [(['k'], .int 1)] [.node 2 ['x'] [] [], .node 3 ['y'] [] []]) :=
+  ⟨_, rfl, rfl, rfl⟩
+
+/-- `get_subtree` without a name or path starts from the given node itself -/
+theorem subtree_self (treeSep : Str) (anc : List Str) (t : Tree) (md : Nat) :
+    getSubtree treeSep anc t [] md
+      = .ok (if md = 0 then t else restrict (fun b => decide (b.length + 1 ≤ md)) [] t) := by
+  simp only [getSubtree, subtreeFind, List.isEmpty_nil, if_true, Except.bind]
+  by_cases hmd : md = 0
+  · simp [hmd]
+  · have : (md == 0) = false := by simpa using hmd
+    simp only [this, Bool.false_eq_true, if_false, hmd]
+    have := prune_order_attrs treeSep t [] false ['/'] md [] (by simp [locate]) (by intro p hp; simp at hp)
+      (Or.inr hmd)
+    rw [this]
+    congr 2
+    funext b
+    simp [pruneKeep, hmd]
+
+/-- **missing_path_rej.** A path that matches no node is reported: `prune_tree` raises
+    `NotFoundError` at the first such path (all earlier ones having been found), `get_subtree`
+    raises `ValueError`; and `prune_tree` without path and depth raises `ValueError`. A path
+    "matches no node" means: no node of the tree has a `path_name` ending with it. -/
+theorem missing_path_rej (treeSep : Str) (t : Tree) (exact : Bool) (sepArg : Str) (md : Nat)
+    (qs1 : List Str) (q : Str) (qs2 : List Str)
+    (hfound : ∀ q' ∈ qs1, ∃ v, findPath treeSep [] t (replace sepArg treeSep q') = .ok (some v))
+    (hmiss : ∀ w ∈ walk [] [] t, ¬ (rstrip treeSep (replace sepArg treeSep q)) <:+ pathName treeSep w.names) :
+    prune treeSep t (qs1 ++ q :: qs2) exact sepArg md = .error .notFound := by
+  have hloc : locate treeSep t sepArg (qs1 ++ q :: qs2) = .error .notFound := by
+    induction qs1 with
+    | nil =>
+      simp only [List.nil_append, locate]
+      rw [(findPath_none treeSep [] t _).mpr hmiss]
+    | cons q' qs ih =>
+      obtain ⟨v, hv⟩ := hfound q' (by simp)
+      simp only [List.cons_append, locate, hv]
+      rw [ih (fun x hx => hfound x (by simp [hx]))]
+      rfl
+  unfold prune prunePaths
+  simp [hloc, Except.map]
+
+/-- non-vacuity: the second path `q` matches nothing (the first one is found) -/
+example : prune ['/'] ex [['b'], ['q']] false ['/'] 0 = .error .notFound := rfl
+example : (∃ v, findPath ['/'] [] ex (replace ['/'] ['/'] ['b']) = .ok (some v))
+    ∧ findPath ['/'] [] ex (replace ['/'] ['/'] ['q']) = .ok none := ⟨⟨_, rfl⟩, rfl⟩
+/-- an ambiguous name is refused too (`z` occurs twice): `SearchError` -/
+example : prune ['/'] ex [['z']] false ['/'] 0 = .error .searchError := rfl
+
+theorem missing_subtree_rej (treeSep : Str) (anc : List Str) (t : Tree) (q : Str) (md : Nat) (hq : q ≠ [])
+    (hmiss : ∀ w ∈ walk [] anc t, ¬ (rstrip treeSep q) <:+ pathName treeSep w.names) :
+    getSubtree treeSep anc t q md = .error .valueError := by
+  have hqe : q.isEmpty = false := by simpa [List.isEmpty_iff] using hq
+  simp only [getSubtree, subtreeFind, hqe, Bool.false_eq_true, if_false,
+    (findPath_none treeSep anc t q).mpr hmiss, Except.bind]
+
+example : getSubtree ['/'] [] ex ['q'] 0 = .error .valueError := rfl
+
+theorem prune_no_args_rej (treeSep : Str) (t : Tree) (exact : Bool) (sepArg : Str) :
+    prune treeSep t [] exact sepArg 0 = .error .valueError := by
+  simp [prune]
+
+end C14
